@@ -18,7 +18,7 @@ SN == 3
 Singles == {Stream(<<a>>, <<s>>, opt) : a \in 1..NA, s \in 1..NS, opt \in Options}
 \* reduced alphabet (variants on pairs, triples): one lexeme of every class and shape
 Reduced == {i \in 1..NA : Alphabet[i].t \in {"a", "R", "42", "0x1F", "1.5e-3", "1'000", "\"s\"", "'c'", ";", "(", ")", "+", "-", "->", "=", ".", "<<",
-                                               "// c", "/* c */", "//!< d", "#define"} \/ (Alphabet[i].c = "ccom" /\ Alphabet[i].nl > 0)}
+                                               "// c", "/* c */", "/* c **/", "/***/", "//!< d", "#define"} \/ (Alphabet[i].c = "ccom" /\ Alphabet[i].nl > 0)}
 \* separations tried between two lexemes: nothing when allowed, one blank, one newline (every admissible separator in the
 \* thorough tier; the tightest admissible one, plus the newline around comments / directives, in the quick tier)
 PairSeps(a, b) == LET ok == {s \in (IF Thorough THEN 1..NS ELSE {S0, S1, SN}) : SepOK(Alphabet[a], Seps[s], Alphabet[b])} IN
@@ -31,7 +31,7 @@ Pairs == UNION {{Stream(<<a, b>>, <<S0, s>>, opt) : s \in PairSeps(a, b), opt \i
 TripleSeps(a, b) == LET ok == {s \in {S0, S1, SN} : SepOK(Alphabet[a], Seps[s], Alphabet[b])} IN
                     IF Thorough THEN ok ELSE (IF S0 \in ok THEN {S0} ELSE IF S1 \in ok THEN {S1} ELSE ok)
 TripleAlphabet == IF Thorough THEN Reduced
-                  ELSE {i \in Reduced : Alphabet[i].t \in {"a", "0x1F", "1.5e-3", "\"s\"", "'c'", ";", "(", "-", "->", "// c", "/* c */", "#define"} \/ Alphabet[i].nl > 0}
+                  ELSE {i \in Reduced : Alphabet[i].t \in {"a", "0x1F", "1.5e-3", "\"s\"", "'c'", ";", "(", "-", "->", "// c", "/* c */", "/* c **/", "#define"} \/ Alphabet[i].nl > 0}
 Triples == UNION {{Stream(<<a, b, c>>, <<l, s, t>>, "default") : s \in TripleSeps(a, b), t \in TripleSeps(b, c), l \in {S0}} :
                    a \in TripleAlphabet, b \in TripleAlphabet, c \in TripleAlphabet}
 Streams == {x \in Singles \cup Pairs \cup Triples : Admissible(Lex(x.lex), Sep(x.sep)) /\ x.opt \in OptsFor(x.lex)}
